@@ -213,3 +213,14 @@ def jsonable(x: Any) -> Any:
         if isinstance(x, (list, tuple, set, frozenset)):
             return [jsonable(i) for i in x]
         return repr(x)
+
+
+def pmap(fn, items: list, procs: int | None = None) -> list:
+    """Run fn over items in forked worker processes (order preserved). fn and its results must be picklable."""
+    import multiprocessing as mp
+    n = procs or int(os.environ.get("VERIF_PROCS", "0") or 0) or min(16, os.cpu_count() or 1)
+    if n <= 1 or len(items) <= 1:
+        return [fn(x) for x in items]
+    ctx = mp.get_context("fork")
+    with ctx.Pool(min(n, len(items))) as pool:
+        return pool.map(fn, items, chunksize=1)
